@@ -80,7 +80,11 @@ func (b *lb) UpdateClientConnState(balancer.ClientConnState) error {
 	}
 	for i := 1; i <= e.ns; i++ {
 		sc := i
-		s, err := b.cc.NewSubConn([]resolver.Address{{Addr: fmt.Sprintf("sc%d", sc)}}, balancer.NewSubConnOptions{
+		list := []resolver.Address{{Addr: fmt.Sprintf("sc%d", sc)}}
+		e.mu.Lock()
+		e.addrs[sc] = list
+		e.mu.Unlock()
+		s, err := b.cc.NewSubConn(list, balancer.NewSubConnOptions{
 			StateListener: func(st balancer.SubConnState) { b.onState(sc, st) },
 		})
 		if err != nil {
@@ -130,6 +134,8 @@ type env struct {
 	mode  map[int]string      // what the server does with the next accepted connection
 	srv   map[int]*srvConn
 	lis   map[int]*bufconn.Listener
+	addrs map[int][]resolver.Address // the address list each subchannel currently has
+	ver   int
 	wg    sync.WaitGroup
 	wctx  context.Context
 	wstop context.CancelFunc
@@ -238,7 +244,8 @@ func (e *env) quiescent() {
 
 func newEnv(tr *vlib.Trace, ns, nwatch int) *env {
 	e := &env{tr: tr, t0: time.Now(), ns: ns, scs: map[int]balancer.SubConn{}, last: map[int]string{},
-		gates: map[int]chan string{}, mode: map[int]string{}, srv: map[int]*srvConn{}, lis: map[int]*bufconn.Listener{}}
+		gates: map[int]chan string{}, mode: map[int]string{}, srv: map[int]*srvConn{}, lis: map[int]*bufconn.Listener{},
+		addrs: map[int][]resolver.Address{}}
 	e.wctx, e.wstop = context.WithCancel(context.Background())
 	for sc := 1; sc <= ns; sc++ {
 		l := bufconn.Listen(1 << 16)
@@ -294,9 +301,10 @@ func (e *env) closeCC() {
 }
 
 type step struct {
-	A   string `json:"a"`
-	SC  int    `json:"sc"`
-	How string `json:"how"`
+	A    string `json:"a"`
+	SC   int    `json:"sc"`
+	How  string `json:"how"`
+	Kind string `json:"kind"`
 }
 
 type summary struct {
@@ -346,6 +354,18 @@ func (e *env) apply(st step, variant int) (feasible bool, closed bool) {
 					synctest.Wait()
 				}
 			}
+			// the attempt goes on with the next address of the list (if any): fail that one too
+			for i := 0; i < 4; i++ {
+				synctest.Wait()
+				e.mu.Lock()
+				g2 := e.gates[sc]
+				delete(e.gates, sc)
+				e.mu.Unlock()
+				if g2 == nil {
+					break
+				}
+				g2 <- "fail"
+			}
 			must = "TRANSIENT_FAILURE"
 		}
 	case "backoff":
@@ -371,6 +391,43 @@ func (e *env) apply(st step, variant int) (feasible bool, closed bool) {
 			s.c.Close()
 		}
 		must = "IDLE"
+	case "updaddrs":
+		// SubConn.UpdateAddresses from the LB policy: an equal list, a disjoint new list, or
+		// the current list plus one more address
+		last := e.lastOf(sc)
+		e.mu.Lock()
+		cur := e.addrs[sc]
+		e.ver++
+		fresh := resolver.Address{Addr: fmt.Sprintf("sc%d-v%d", sc, e.ver)}
+		var list []resolver.Address
+		switch st.Kind {
+		case "same":
+			list = append([]resolver.Address{}, cur...)
+		case "keep":
+			list = append(append([]resolver.Address{}, cur...), fresh)
+		default:
+			list = []resolver.Address{fresh}
+		}
+		e.addrs[sc] = list
+		e.mu.Unlock()
+		e.scs[sc].UpdateAddresses(list)
+		must = last
+		if last == "READY" && st.Kind == "new" {
+			must = "CONNECTING"
+		}
+		if last == "READY" && st.Kind == "keep" {
+			// documented intent: the connection is kept ("we are connected to a valid address");
+			// not part of the property text, so only reported as drift
+			must = ""
+			synctest.Wait()
+			e.tr.Emit(map[string]any{"ev": "soft", "sc": sc, "s": "READY", "what": "updaddrs_keep_in_ready"})
+		}
+		synctest.Wait()
+		if e.lastOf(sc) != "READY" {
+			e.mu.Lock()
+			delete(e.srv, sc) // that connection is gone
+			e.mu.Unlock()
+		}
 	case "scshutdown":
 		if e.lastOf(sc) == "SHUTDOWN" {
 			return false, false
@@ -457,7 +514,7 @@ func TestVerifC30Random(t *testing.T) {
 	}
 	n := vlib.EnvInt("VERIF_N", 100)
 	seed := int64(vlib.EnvInt("VERIF_SEED", 1))
-	acts := []string{"connect", "connect", "dialok", "dialok", "dialfail", "dialfail", "backoff", "disconnect", "disconnect", "scshutdown", "sleep"}
+	acts := []string{"connect", "connect", "dialok", "dialok", "dialfail", "dialfail", "backoff", "disconnect", "disconnect", "scshutdown", "sleep", "updaddrs", "updaddrs"}
 	var sum summary
 	synctest.Test(t, func(t *testing.T) {
 		for r := 0; r < n; r++ {
@@ -468,7 +525,8 @@ func TestVerifC30Random(t *testing.T) {
 				e := newEnv(tr, 2, 3)
 				ops := 4 + rng.Intn(20)
 				for i := 0; i < ops; i++ {
-					st := step{A: acts[rng.Intn(len(acts))], SC: 1 + rng.Intn(2), How: []string{"goaway", "close"}[rng.Intn(2)]}
+					st := step{A: acts[rng.Intn(len(acts))], SC: 1 + rng.Intn(2), How: []string{"goaway", "close"}[rng.Intn(2)],
+						Kind: []string{"same", "new", "new", "keep"}[rng.Intn(4)]}
 					if st.A == "scshutdown" && rng.Intn(3) != 0 {
 						continue
 					}
